@@ -769,6 +769,79 @@ fn native_streams(cx: &mut Ctx) {
 	}
 }
 
+/// structurally valid Hand / Shake / PeerError encodings whose string field is made of multi-byte UTF-8:
+/// the first `len` bytes of (`prefix` ASCII bytes, then a 1-, 2-, 3- or 4-byte character repeated), for
+/// every length and every prefix 0..3 — so every byte offset of the string lies, in some input, inside
+/// a multi-byte character, and the string ends inside one whenever `(len - prefix) % k != 0`.
+/// A value or an error, never a panic.
+fn utf8_string_streams(cx: &mut Ctx) {
+	let agent = |k: usize, prefix: usize, len: usize| -> Vec<u8> {
+		let ch: &str = ["a", "é", "€", "😀"][k - 1];
+		let mut b: Vec<u8> = vec![b'x'; prefix];
+		while b.len() < len + 4 {
+			b.extend_from_slice(ch.as_bytes());
+		}
+		b.truncate(len);
+		b
+	};
+	let mut r = Rng::new(cx.rng.next());
+	let hand0 = sv(
+		&Hand {
+			version: ProtocolVersion(3),
+			capabilities: Capabilities::from_bits_truncate(15),
+			nonce: 4711,
+			genesis: hash32(&mut r),
+			total_difficulty: Difficulty::from_num(5),
+			sender_addr: gen_addr(&mut r),
+			receiver_addr: gen_addr(&mut r),
+			user_agent: String::new(),
+		},
+		1,
+	);
+	let shake0 = sv(&Shake { version: ProtocolVersion(2), capabilities: Capabilities::from_bits_truncate(15), genesis: hash32(&mut r), total_difficulty: Difficulty::from_num(5), user_agent: String::new() }, 1);
+	let err0 = sv(&PeerError { code: 7, message: String::new() }, 1);
+	// where the 8-byte length prefix of the (empty) string sits, counted from the end
+	let splice = |base: &[u8], tail: usize, s: &[u8]| -> Vec<u8> {
+		let at = base.len() - tail - 8;
+		let mut b = base[..at].to_vec();
+		b.extend_from_slice(&(s.len() as u64).to_be_bytes());
+		b.extend_from_slice(s);
+		b.extend_from_slice(&base[base.len() - tail..]);
+		b
+	};
+	let dense = if cx.thorough { 140 } else { 72 };
+	let mut lens: Vec<usize> = (0..=dense).collect();
+	lens.extend_from_slice(&[255, 256, 257, 258, 259, 260, 511, 512, 513, 1023, 1024, 1025, 4095, 4096, 4097, 4098, 4099]);
+	let mut n = 0usize;
+	for &len in &lens {
+		for k in 1..=4usize {
+			for prefix in 0..4usize {
+				if prefix > len {
+					continue;
+				}
+				let ua = agent(k, prefix, len);
+				n += 1;
+				let ver = VERSIONS[n % 4];
+				let buf = n % 2 == 0;
+				cx.dec::<Hand, _>("hand", buf, ver, &splice(&hand0, 32, &ua), 100_000 + 4096, canon_w::<Hand>(ver), false);
+				cx.dec::<Shake, _>("shake", !buf, ver, &splice(&shake0, 32, &ua), 100_000 + 4096, canon_w::<Shake>(ver), false);
+				cx.dec::<PeerError, _>("peererror", buf, ver, &splice(&err0, 0, &ua), 100_000 + 4096, canon_w::<PeerError>(ver), false);
+				// the announced length one more / one less than the bytes of the string (cuts the last character
+				// or takes a byte of what follows into the string)
+				if len > 0 && len <= dense && prefix == len % 4 {
+					let mut b = splice(&hand0, 32, &ua);
+					let at = hand0.len() - 32 - 8;
+					b[at..at + 8].copy_from_slice(&((len - 1) as u64).to_be_bytes());
+					cx.dec::<Hand, _>("hand", buf, ver, &b, 100_000 + 4096, canon_w::<Hand>(ver), false);
+					b[at..at + 8].copy_from_slice(&((len + 1) as u64).to_be_bytes());
+					cx.dec::<Hand, _>("hand", !buf, ver, &b, 100_000 + 4096, canon_w::<Hand>(ver), false);
+				}
+			}
+		}
+	}
+	cx.out.raw(&format!("#STAT utf8 strings: {} (length, character width 1..4, ASCII prefix 0..3) combinations x Hand / Shake / PeerError, lengths 0..={} and around 256, 512, 1024, 4096", n, dense));
+}
+
 fn segment_streams(cx: &mut Ctx) {
 	let s = budget(cx, 2, 5);
 	let rn = budget(cx, 150, 800);
@@ -2468,6 +2541,7 @@ fn child_main(mode: &str) {
 		"main" => {
 			hdr_stream(&mut cx);
 			native_streams(&mut cx);
+			utf8_string_streams(&mut cx);
 			segment_streams(&mut cx);
 			merkle_stream(&mut cx);
 			hex_streams(&mut cx);
